@@ -275,7 +275,8 @@ class CircuitTemplate(AbstractBaseTemplate):
             Dictionary with keys being pointers to variable names on nodes, using the `*circuit/node/op/var` notation.
         edge_vars
             List with edge tuples that contain: (1) a source node name, (2) a target node name, and (3) a dictionary
-            with edge attributes. The latter can be used to update edge attributes.
+            with edge attributes. The latter can be used to update edge attributes. An optional 4th entry is the index
+            of the edge among several parallel edges from source to target (default 0).
 
         Returns
         -------
@@ -302,8 +303,9 @@ class CircuitTemplate(AbstractBaseTemplate):
                 self.add_node_template(n, template=node_temp)
 
         # updates to edge variable values
-        for source, target, edge_dict in edge_vars:
-            _, _, _, base_dict = self.get_edge(source, target)
+        for source, target, edge_dict, *idx in edge_vars:
+            # an optional 4th entry selects one of several parallel edges between source and target (default: the first)
+            _, _, _, base_dict = self.get_edge(source, target, *idx)
             base_dict.update(edge_dict)
 
         return self
